@@ -1312,6 +1312,42 @@ fn push_case(nb: u8, ids: &[u8], rng: &mut Prng, col: &mut Collector) {
             return;
         }
     }
+    // A later set of NbTotalGroups (the order a device answering a McGroupStatusReq uses: items
+    // first, total afterwards) overrides the earlier value and disturbs neither the
+    // AnsGroupMask nor the items.
+    let nb2 = rng.below(8) as u8;
+    let r = trap(|| {
+        c.nb_total_groups(nb2);
+        c.build().to_vec()
+    });
+    match r {
+        Err(t) => vreport("mcast", "McGroupStatusAns", "nb_total_groups", "panic|after-push", &format!("nb_total_groups after push panicked: {}", t.msg), json!({"nb": nb2}), col),
+        Ok(a) => {
+            let got = trap(|| {
+                let mut it = parse_uplink_multicast_commands(&a);
+                match (it.next(), it.next()) {
+                    (Some(Ok(UplinkRemoteSetup::McGroupStatusAns(p))), None) => Some((p.nb_total_groups(), p.ans_group_mask(), p.item_iterator().take(8).map(|i| (i.mc_group_id(), i.mc_addr().value())).collect::<Vec<_>>())),
+                    _ => None,
+                }
+            });
+            let mask = model.iter().fold(0u8, |x, e| x | 1 << e.0);
+            let mut sorted = model.clone();
+            sorted.sort();
+            let ok = matches!(&got, Ok(Some((gnb, gmask, items))) if *gnb == nb2 && *gmask == mask && (*items == model || *items == sorted));
+            col.eval(&format!("mc-up|McGroupStatusAns|nb_total_groups-after-push|items={}|{}", model.len(), if ok { "roundtrip" } else { "violation" }));
+            if !ok {
+                vreport(
+                    "mcast",
+                    "McGroupStatusAns",
+                    "nb_total_groups",
+                    "set-after-push-disturbs-other-fields",
+                    "setting NbTotalGroups after the items were pushed changed the AnsGroupMask / items or does not read back",
+                    json!({"nb": nb2, "groups_pushed": model.iter().map(|m| m.0).collect::<Vec<_>>(), "built": hex(&a), "parsed": format!("{:?}", got.as_ref().map_err(|t| &t.msg))}),
+                    col,
+                );
+            }
+        }
+    }
 }
 
 /// McGroupStatusReqCreator: req_group_mask(mask) then req_group(g) for every g ("set just the bit").
